@@ -237,7 +237,11 @@ static void reg_math(const char* nq, uint64_t id) {
     m.run = [nq](Reporter& R, Rng& rng, int reps) {
       const std::string key = std::string("C04|math|") + nq + "|" + TN;
       for (int rep = 0; rep < reps; ++rep) {
-        const T v = rng.logu<T>(-10, 10, true);
+        // mostly generic values; every tenth draw is a signed zero or a boundary value of the functions' domains
+        static const T special[] = {static_cast<T>(0), -static_cast<T>(0), static_cast<T>(1), static_cast<T>(-1),
+                                    std::numeric_limits<T>::min(), -std::numeric_limits<T>::min(), std::numeric_limits<T>::denorm_min(),
+                                    std::numeric_limits<T>::max(), -std::numeric_limits<T>::max()};
+        const T v = rep % 10 == 9 ? special[(rep / 10) % 9] : rng.logu<T>(-10, 10, true);
         const T p = rng.logu<T>(-2, 2, true);
         const Q q = Op<Q>::load(&v);
         const T x = q.Value();
@@ -489,7 +493,7 @@ static void c03_driver(Reporter& R, const Rel& r) {
       }
     }
     R.nontrivial(hash_str(key));
-    if (R.want_sample() && (r.id % 41) == 0) {
+    if (R.want_sample(r.id, 41)) {
       R.sample(J().s("relation", r.what).s("numeric_type", TN).raw("inputs", inputs_json(b1, r.in, false)).raw("result", arr_json(o1, r.out.n))
                    .raw("result_from_rescaled_inputs", arr_json(o2, r.out.n)).str());
     }
@@ -587,7 +591,7 @@ static void c04_driver(Reporter& R, const Rel& r) {
           return;
         }
       }
-      if (rep == 0 && R.want_sample() && (r.id % 37) == 0) {
+      if (rep == 0 && R.want_sample(r.id, 37)) {
         R.sample(J().s("operator", r.what).s("numeric_type", TN).raw("operands_as_stored", inputs_json(b, r.in, true))
                      .raw("result", arr_json(out, nc)).str());
       }
@@ -627,7 +631,7 @@ static void c04_history_driver(Reporter& R, HistoryType& H) {
           }
         }
       }
-      if (h == 0 && R.want_sample() && (H.id % 23) == 0) {
+      if (h == 0 && R.want_sample(H.id, 23)) {
         R.sample(J().s("accumulator_type", H.name).s("numeric_type", TN).s("history", trace).raw("final", arr_json(a, H.n)).str());
       }
     }
@@ -771,7 +775,7 @@ static void c05_pair_driver(Reporter& R, const Pair& p) {
         p.inverse(b3.p, moved, nullptr);
       };
       if (!c05_judge(R, key, p.what, b.sv[p.r], back, p.in[p.r].n, K, sc, inputs_json(b, p.in, true), p.mid.n, resense)) return;
-      if (rep == 0 && R.want_sample() && (p.id % 29) == 0) {
+      if (rep == 0 && R.want_sample(p.id, 29)) {
         R.sample(J().s("pair", p.what).s("numeric_type", TN).raw("inputs", inputs_json(b, p.in, true)).raw("intermediate", arr_json(c, p.mid.n))
                      .raw("recovered", arr_json(back, p.in[p.r].n)).str());
       }
@@ -779,6 +783,40 @@ static void c05_pair_driver(Reporter& R, const Pair& p) {
     R.nontrivial(hash_str(key));
   });
   R.count(std::string("c05_constructor_pairs_") + TN);
+}
+
+// compound assignment by a number that lives inside the object itself (v /= v.component): the result must
+// still be the pure-operator result computed from the original components
+template <typename S, size_t N, typename GetArr>
+static void c04_alias_probe(Reporter& R, const char* shape, GetArr&& mutable_array) {
+  const std::string key = std::string("C04|aliasing|") + shape + "|" + TN;
+  Rng rng(mix(mix(g_args->seed, 0xA11A5), hash_str(shape)));
+  R.crumb(key);
+  guarded(R, key, [&] {
+    const int reps = static_cast<int>(g_args->n("operands", g_args->thorough() ? 20000 : 200));
+    for (int rep = 0; rep < reps; ++rep) {
+      std::array<T, N> a;
+      for (auto& v : a) v = rng.logu<T>(-6, 6, true);
+      const size_t k = rng.below(N);
+      const bool divide = rng.coin();
+      S v = FromArr<S>::make(a);
+      std::array<T, N>& inside = mutable_array(v);
+      if (divide) v /= inside[k];
+      else v *= inside[k];
+      const auto got = to_arr(v);
+      R.eval();
+      for (size_t i = 0; i < N; ++i) {
+        const T want = divide ? a[i] / a[k] : a[i] * a[k];
+        if (!same_value_bits(got[i], want)) {
+          R.violation(key + (divide ? "|/=" : "|*="), J().s("shape", shape).s("numeric_type", TN).s("operator", divide ? "/=" : "*=")
+                                                          .i("aliased_component", k).i("slot", i).raw("before", jarr(a)).raw("after", jarr(got)).str());
+          return;
+        }
+      }
+    }
+    R.nontrivial(hash_str(key));
+  });
+  R.count(std::string("c04_alias_probes_") + TN);
 }
 
 // ------------------------------------------------------------------------------------------------
@@ -813,6 +851,14 @@ void VERIF_THIS_PART(Reporter& R, const Args& A) {
   } else if (prop == "C04") {
     for (auto& r : g_rels) c04_driver(R, r);
     for (auto& h : g_histories) c04_history_driver(R, h);
+    if constexpr (kBlock == 0) {
+      if (A.shard == 0) {
+        c04_alias_probe<PhQ::PlanarVector<T>, 2>(R, "PlanarVector", [](PhQ::PlanarVector<T>& v) -> std::array<T, 2>& { return v.Mutable_x_y(); });
+        c04_alias_probe<PhQ::Vector<T>, 3>(R, "Vector", [](PhQ::Vector<T>& v) -> std::array<T, 3>& { return v.Mutable_x_y_z(); });
+        c04_alias_probe<PhQ::SymmetricDyad<T>, 6>(R, "SymmetricDyad", [](PhQ::SymmetricDyad<T>& v) -> std::array<T, 6>& { return v.Mutable_xx_xy_xz_yy_yz_zz(); });
+        c04_alias_probe<PhQ::Dyad<T>, 9>(R, "Dyad", [](PhQ::Dyad<T>& v) -> std::array<T, 9>& { return v.Mutable_xx_xy_xz_yx_yy_yz_zx_zy_zz(); });
+      }
+    }
     for (auto& m : g_math) {
       const std::string key = "C04|math|" + m.name + "|" + TN;
       Rng rng(mix(mix(A.seed, 0x3A74), m.id));
